@@ -209,8 +209,8 @@ func main() {
 		// a single-part message: the body octets are identical (no tolerance: not a line break more or less, no re-wrapping)
 		if !it.tree.Multi {
 			sb, fb := bodyOf(it.msg), bodyOf(it.fetch)
-			if it.via == "lmtp" && !strings.HasSuffix(sb, "\r\n") {
-				sb += "\r\n" // the DATA phase cannot carry a last line without its line end: that is what was submitted
+			if it.via == "lmtp" && !strings.HasSuffix(sb, "\n") {
+				sb += "\r\n" // the DATA phase cannot carry a last line without a line end: world.DotStuff completes it, that is what was submitted
 			}
 			if sb != fb {
 				what := fmt.Sprintf("single-part message %s (via %s, %s): the body octets differ: submitted %d octets ending %q, fetched %d octets ending %q", it.token, it.via, it.tree.CTE, len(sb), tailOf(sb, 24), len(fb), tailOf(fb, 24))
